@@ -756,8 +756,7 @@ func (t *Teamserver) SendEvent(id string, pk packager.Package) error {
 
 		err = client.Connection.WriteMessage(websocket.BinaryMessage, buffer.Bytes())
 		if err != nil {
-			// TODO: comment this line out as it seems to crash the server
-			//t.Clients[id].Mutex.Unlock()
+			client.Mutex.Unlock()
 			return err
 		}
 
